@@ -148,7 +148,7 @@ class OfSubject(Subject):
             if L + 2 <= self.MAXLEN:
                 ops += ['m:extend(2,1)']
             ops += ['m:setpos(%d,1)' % L]
-        ops += ['m:extend()', 'm:clear()', 'm:reset()', 'm:sort()', 'm:reverse()']
+        ops += ['m:extend()', 'm:clear()', 'm:reset()', 'm:sort()', 'm:reverse()', 'm:sortrev()', 'm:sortkeyrev()', 'm:sortkey()']
         if m is not None:
             ops += ['m:clone()']
         for i in sorted(set([0, L - 1]) if L else []):
@@ -162,6 +162,8 @@ class OfSubject(Subject):
         if L:
             ops += ['r:getitem(0)', 'r:getitem(-1)', 'r:getpos(%d)' % (L - 1), 'r:index(1)', 'r:index(2)', 'r:getslice(0,2)']
         ops += ['x:getitem(%d)' % (-L - 1), 'x:setitem(%d,1)' % (-L - 1)]
+        if self.typed:
+            ops += ['x:append_wrongtype()']      # a rejected assignment must change nothing (also on a schema object)
         return ops
 
     def expect(self, label, m):
@@ -190,6 +192,17 @@ class OfSubject(Subject):
             if m is None:
                 return m, ('any',)
             return tuple(reversed(lst)), ('ok', ANY)
+        if name in ('sortrev', 'sortkeyrev', 'sortkey'):
+            if m is None:
+                return m, ('any',)
+            if name == 'sortrev':
+                return tuple(sorted(lst, reverse=True)), ('ok', ANY)
+            if name == 'sortkey':
+                return tuple(sorted(lst, key=lambda x: x % 2)), ('ok', ANY)
+            # every member ties under the key: a stable sort keeps the order, also with reverse=True
+            return tuple(sorted(lst, key=lambda x: 0, reverse=True)), ('ok', ANY)
+        if name == 'append_wrongtype':
+            return m, ('err',)
         if name == 'clone':
             return m, ('ok', ANY)
         if name == 'setitem':
@@ -259,6 +272,10 @@ class OfSubject(Subject):
             'reset': lambda: (obj.reset(), None)[1],
             'sort': lambda: obj.sort(),
             'reverse': lambda: obj.reverse(),
+            'sortrev': lambda: obj.sort(reverse=True),
+            'sortkeyrev': lambda: obj.sort(key=lambda x: 0, reverse=True),
+            'sortkey': lambda: obj.sort(key=lambda x: int(x) % 2),
+            'append_wrongtype': lambda: obj.append(univ.OctetString(b'zz')),
             'setitem': lambda: operator.setitem(obj, args[0], V(args[1])),
             'setslice': lambda: operator.setitem(obj, slice(0, 2), [V(2), V(1)]),
             'len': lambda: len(obj),
